@@ -8,7 +8,8 @@ import array
 
 import pysam
 
-CONTIGS = [('chr1', 4000), ('chr2', 4000)]
+# >= 100000 bp: the tagger's contig-per-process job plan treats shorter contigs specially (that plan is C05's subject)
+CONTIGS = [('chr1', 120000), ('chr2', 120000)]
 
 
 def header():
@@ -16,8 +17,18 @@ def header():
                                             'SQ': [{'SN': n, 'LN': ln} for n, ln in CONTIGS]})
 
 
-def make_reference(rng, n=4000):
-    return ''.join(rng.choice('ACGT') for _ in range(n))
+def make_reference(rng, n=120000):
+    return ''.join(rng.choices('ACGT', k=n))
+
+
+def write_fasta(path, ref):
+    with open(path, 'w') as f:
+        for name, ln in CONTIGS:
+            f.write('>%s\n' % name)
+            for i in range(0, ln, 60):
+                f.write(ref[i:i + 60] + '\n')
+    pysam.faidx(path)
+    return path
 
 
 def md_tag(ref, start, cigar, seq):
